@@ -18,19 +18,43 @@ def pt : P Pt := do let x ← rat; let y ← rat; let z ← rat; pure (x, y, z)
 def natList : P (List Nat) := listOf nat
 def pair : P (Nat × Nat) := do let a ← nat; let b ← nat; pure (a, b)
 
-def op : P Op := do
+/-- one token of a scenario: an operation, or the boundary between two editing blocks (`__exit__` then a new
+`__enter__` on the same mesh object) -/
+inductive Tok where
+  | op (o : Op)
+  | boundary
+
+def op : P Tok := do
   let k ← tok
   match k with
-  | "fan" => do let f ← nat; pure (.fan f)
-  | "tf" => do let f ← nat; pure (.triFace f)
-  | "tri" => pure .tri
-  | "loop" => do let n ← nat; pure (.loop n)
-  | "q3" => pure .quads3
-  | "s6" => do let n ← nat; pure (.sub6 n)
-  | "cfan" => do let c ← nat; pure (.cellFan c)
-  | "fsp" => do let f ← nat; pure (.faceSplit f)
-  | "es" => do let e ← nat; pure (.edgeSplit e)
+  | "fan" => do let f ← nat; pure (.op (.fan f))
+  | "tf" => do let f ← nat; pure (.op (.triFace f))
+  | "tri" => pure (.op .tri)
+  | "loop" => do let n ← nat; pure (.op (.loop n))
+  | "q3" => pure (.op .quads3)
+  | "s6" => do let n ← nat; pure (.op (.sub6 n))
+  | "cfan" => do let c ← nat; pure (.op (.cellFan c))
+  | "fsp" => do let f ← nat; pure (.op (.faceSplit f))
+  | "es" => do let e ← nat; pure (.op (.edgeSplit e))
+  | "nb" => pure .boundary
   | _ => failure
+
+/-- splits the token list into blocks -/
+def toBlocks : List Tok → List (List Op)
+  | [] => [[]]
+  | .boundary :: r => [] :: toBlocks r
+  | .op o :: r => match toBlocks r with
+    | [] => [[o]]
+    | b :: bs => (o :: b) :: bs
+
+/-- runs the blocks one after the other on the same mesh: after every block the mesh is prepared (the repaired
+`__exit__` makes the caller's object the refined mesh, which the next block edits). `i0` counts operations globally. -/
+def runBlocks (isPoly : Bool) (m : Raw) : List (List Op) → Nat → Raw × Option (Err × Nat)
+  | [], _ => (m, none)
+  | b :: bs, i0 =>
+    match runOps m b i0 with
+    | (m', some e) => (m', some e)
+    | (m', none) => runBlocks isPoly (if isPoly then m' else prepare m') bs (i0 + b.length)
 
 def fmtPt (p : Pt) : String := s!"{fmtRat p.1} {fmtRat p.2.1} {fmtRat p.2.2}"
 
@@ -44,12 +68,11 @@ def fmtMesh (m : Raw) (withCells : Bool) : String :=
   let c := if withCells then " " ++ " ".intercalate (s!"C {m.cells.length}" :: m.cells.map fmtNats) else ""
   s!"{v} {e} {f}{c}"
 
-def runScenario (m0 : Raw) (ops : List Op) (withCells : Bool) (isPoly : Bool) : String :=
+def runScenario (m0 : Raw) (toks : List Tok) (withCells : Bool) (isPoly : Bool) : String :=
   let input := prepare m0
-  match runOps input ops 0 with
+  match runBlocks isPoly input (toBlocks toks) 0 with
   | (_, some (e, i)) => s!"{fmtErr e} {i}"
-  | (m, none) =>
-    let res := if isPoly then m else prepare m
+  | (res, none) =>
     s!"ok {fmtMesh res withCells} IN = corners {cornerCount res}"
 
 def surfReq : P String := do
